@@ -443,14 +443,55 @@ pub fn gen_history(seed: u64, p: &Profile) -> History {
     }
     let readd_bias = p.priority_mix || g.k.chance(1, 3);
     let mut ops: Vec<Op> = Vec::with_capacity(len + 1);
+    // "head-lane stress" (a share of the zero-quantity runs): the book starts with several orders
+    // that display nothing, followed by ordinary ones; the history then alternates small matches
+    // (partial fills), amendments that give a silent order a display or take it away again,
+    // and the odd cancel / re-add - the states in which several orders are handed back to the
+    // head of the queue in one call and have to keep their relative places
+    let lane_stress = g.zero && g.k.chance(1, 4);
+    if lane_stress {
+        let silent = 2 + g.k.below(3) as usize;
+        let loud = 1 + g.k.below(3) as usize;
+        for i in 0..silent + loud {
+            let id = g.fresh_id();
+            let mut o = g.order(id);
+            // the kind is overridden below: clear every type-specific field first
+            o.p1 = 0;
+            o.p2 = 0;
+            o.p2_some = false;
+            o.auto = false;
+            o.off = 0;
+            o.peg = 0;
+            o.hid = 0;
+            if i < silent {
+                o.kind = if g.w.chance(3, 4) { Kind::Iceberg } else { Kind::Reserve };
+                o.vis = 0;
+                o.hid = 1 + g.w.below(9);
+                if o.kind == Kind::Reserve {
+                    o.auto = true;
+                    o.p2_some = true;
+                    o.p2 = 0; // a reserve that cannot replenish
+                }
+            } else {
+                o.kind = *g.w.pick(&[Kind::Standard, Kind::Iceberg, Kind::PostOnly]);
+                o.vis = 2 + g.w.below(8);
+                o.hid = if o.kind == Kind::Iceberg { g.w.below(6) } else { 0 };
+            }
+            o.price = g.price;
+            g.book_add(o);
+            ops.push(Op::Add(o));
+        }
+        wts = [1, 6, 1, 6, 0, 1, 1, 0, wts[8].min(1), 0, 0];
+    }
     // a few adds up front so that there is a book to work on
-    let pre = g.k.below(5) as usize;
+    let pre = if lane_stress { 0 } else { g.k.below(5) as usize };
     for _ in 0..pre.min(len) {
         let id = g.fresh_id();
         let o = g.order(id);
         g.book_add(o);
         ops.push(Op::Add(o));
     }
+    let len = if lane_stress { len.max(ops.len() + 6) } else { len };
     while ops.len() < len {
         let which = g.w.weighted(&wts);
         match which {
@@ -469,7 +510,11 @@ pub fn gen_history(seed: u64, p: &Profile) -> History {
                 ops.push(Op::Add(o));
             }
             1 => {
-                let qty = g.match_qty();
+                let qty = if lane_stress && g.w.chance(3, 4) {
+                    1 + g.w.below(3)
+                } else {
+                    g.match_qty()
+                };
                 let taker = IdS {
                     ulid: g.w.chance(1, 2),
                     v: 0x7a6b_0000 + g.w.below(1000) as u128,
@@ -501,7 +546,11 @@ pub fn gen_history(seed: u64, p: &Profile) -> History {
                 } else {
                     g.price + 1 + g.w.below(3)
                 };
-                let qty = g.amend_qty(id);
+                let qty = if lane_stress {
+                    *g.w.pick(&[0u64, 0, 1, 2, 3, 5])
+                } else {
+                    g.amend_qty(id)
+                };
                 let u = UpdSpec {
                     kind,
                     id,
